@@ -4,6 +4,7 @@
 
 mod errclass;
 mod exec;
+mod lex;
 mod mnemonic;
 mod queue;
 mod status;
@@ -19,6 +20,7 @@ fn main() {
     let code = match cmd {
         "errclass-rows" => errclass::rows(rest),
         "exec-replay" => exec::replay(rest),
+        "lex-replay" => lex::replay(rest),
         "mnem-replay" => mnemonic::replay(rest),
         "mnem-rows" => mnemonic::rows(rest),
         "queue-edges" => queue::replay_edges(rest),
